@@ -119,6 +119,16 @@ func (a *AuthenStart) MarshalBinary() ([]byte, error) {
 	if err := a.Validate(); err != nil {
 		return nil, err
 	}
+	switch {
+	case a.User.Len() > maxUint8Len:
+		return nil, errFieldTooLong("authenStart", "user", a.User.Len(), maxUint8Len)
+	case a.Port.Len() > maxUint8Len:
+		return nil, errFieldTooLong("authenStart", "port", a.Port.Len(), maxUint8Len)
+	case a.RemAddr.Len() > maxUint8Len:
+		return nil, errFieldTooLong("authenStart", "rem-addr", a.RemAddr.Len(), maxUint8Len)
+	case a.Data.Len() > maxUint8Len:
+		return nil, errFieldTooLong("authenStart", "data", a.Data.Len(), maxUint8Len)
+	}
 	buf := make([]byte, 0, AuthenStartLen)
 	buf = append(buf, uint8(a.Action))
 	buf = append(buf, uint8(a.PrivLvl))
@@ -259,6 +269,12 @@ func (a *AuthenContinue) MarshalBinary() ([]byte, error) {
 	if err := a.Validate(); err != nil {
 		return nil, err
 	}
+	switch {
+	case a.UserMessage.Len() > maxUint16Len:
+		return nil, errFieldTooLong("authenContinue", "user-msg", a.UserMessage.Len(), maxUint16Len)
+	case a.Data.Len() > maxUint16Len:
+		return nil, errFieldTooLong("authenContinue", "data", a.Data.Len(), maxUint16Len)
+	}
 	buf := make([]byte, 0, AuthenContinueLen)
 	buf = appendUint16(buf, a.UserMessage.Len())
 	buf = appendUint16(buf, a.Data.Len())
@@ -378,6 +394,12 @@ func (a *AuthenReply) MarshalBinary() ([]byte, error) {
 	// validate
 	if err := a.Validate(); err != nil {
 		return nil, err
+	}
+	switch {
+	case a.ServerMsg.Len() > maxUint16Len:
+		return nil, errFieldTooLong("authenReply", "server-msg", a.ServerMsg.Len(), maxUint16Len)
+	case a.Data.Len() > maxUint16Len:
+		return nil, errFieldTooLong("authenReply", "data", a.Data.Len(), maxUint16Len)
 	}
 	buf := make([]byte, 0, AuthenReplyLen)
 	buf = append(buf, uint8(a.Status))
